@@ -19,16 +19,29 @@
 /* sinks referenced by loop contracts must be declared before the lowered text */
 static unsigned g_app_n;
 static unsigned char g_app_last;
-static _Bool g_builder_valid;
+static _Bool g_builder_valid; /* the string builder's state: it may be invalid from the start (startString's allocation failed) and
+                                 becomes invalid at the g_fail_at-th append (a failed resize); once invalid it stays invalid */
+static unsigned g_fail_at;
 static _Bool g_first_loaded; /* the latch was loaded when the routine under test started */
-#ifdef CFG_nouni
-/* ARDUINOJSON_DECODE_UNICODE=0 (named by jsonscan_nouni.loops.json) */
-static unsigned g_esc_n;     /* two-character escapes translated so far (each consumes two bytes and appends one) */
-static _Bool g_u_kept;       /* a backslash was appended while the 'u' behind it was waiting in the latch: \u kept verbatim */
-static void *g_jd;           /* the deserializer under test (the append stub looks at its latch) */
-#ifdef APP_LOG
+/* parseQuotedString / parseNonQuotedString: what is appended, why InvalidInput (named by the loop contracts) */
+static void *g_jd;            /* the deserializer under test (the stubs look at its latch) */
+static unsigned g_esc_n;      /* two-character escapes translated so far (each consumes two bytes and appends one) */
+static _Bool g_unesc_pending; /* the escape table returned a translation that has not been appended yet */
+static char g_unesc_ret;      /* ... that translation */
+static _Bool g_unesc_zero;    /* the escape table returned 0: the byte behind the backslash is not an escape */
+static _Bool g_hex_invalid;   /* parseHex4 reported InvalidInput */
+static unsigned g_u_n;        /* \uXXXX groups decoded so far (parseHex4 returned Ok) */
+static unsigned g_hex_reads;  /* read() calls made inside parseHex4 (part of g_reads) */
+static unsigned g_cp_app;     /* bytes appended by encodeCodepoint (part of g_app_n) */
+static _Bool g_app_hi, g_app_ctl; /* a byte >= 0x80 / the control byte 0x1F was appended as a plain byte */
+static _Bool g_u_kept;        /* nouni: a backslash was appended while the 'u' behind it was waiting in the latch: \u kept verbatim */
+#define APP_GHOST_ASSIGNS g_app_n, g_app_last, g_builder_valid, g_app_hi, g_app_ctl, g_unesc_pending
+#define PQ_GHOST_ASSIGNS APP_GHOST_ASSIGNS, g_esc_n, g_unesc_ret, g_unesc_zero, g_hex_invalid, g_u_n, g_hex_reads, g_cp_app
+/* bytes the routine itself fetched / appended (without those of the parseHex4 / encodeCodepoint callees) */
+#define PQ_OWN_READS (g_reads - g_hex_reads)
+#define PQ_OWN_APPENDS (g_app_n - g_cp_app)
+#if defined(CFG_nouni) && defined(APP_LOG)
 static unsigned char g_app_buf[16]; /* the first 16 appended bytes (unit jsonscan_nouni: loops unwound, no loop contracts) */
-#endif
 #endif
 #ifdef VERIF_NATIVE
 #include "lowered_types.h"
@@ -59,14 +72,28 @@ int StubReader__read(struct StubReader *self) {
 }
 
 /* ---- string builder sink (C01: what is appended) ---- */
+/* append: C01 "strings byte-identical after escape and \\uXXXX decoding": what is appended is either the translation the
+ * escape table just returned, or the plain byte just consumed (the latch has dropped it: it is the last byte delivered) --
+ * whatever its value: 0x01-0x1F and 0x80-0xFF are legal string bytes here.  (\\u: the bytes come from encodeCodepoint.) */
 void StringBuilder__append__char(struct StringBuilder *self, char c) {
   (void)self;
+  JD *d = (JD *)g_jd;
+  if (g_unesc_pending) {
+    CHECK(c == g_unesc_ret, "C01: behind a backslash the byte the escape table gives is appended");
+    g_unesc_pending = 0;
+  }
 #ifdef CFG_nouni
-  if (c == '\\' && g_jd && ((JD *)g_jd)->latch_.loaded_ && ((JD *)g_jd)->latch_.current_ == 'u') g_u_kept = 1;
-#ifdef APP_LOG
+  else if (c == '\\' && d && d->latch_.loaded_ && d->latch_.current_ == 'u') g_u_kept = 1; /* DECODE_UNICODE=0: the backslash of \u */
+#endif
+  else {
+    CHECK(d && !d->latch_.loaded_ && g_have_last && (unsigned char)c == (unsigned char)g_last, "C01: a plain byte is appended verbatim: the byte just consumed, whatever its value (0x01-0x1F and 0x80-0xFF included)");
+    if ((unsigned char)c >= 0x80) g_app_hi = 1;
+    if (c == 0x1f) g_app_ctl = 1;
+  }
+#if defined(CFG_nouni) && defined(APP_LOG)
   if (g_app_n < 16) g_app_buf[g_app_n] = (unsigned char)c;
 #endif
-#endif
+  if (g_app_n == g_fail_at) g_builder_valid = 0; /* a failed resize */
   g_app_n++; g_app_last = (unsigned char)c;
 }
 _Bool StringBuilder__isValid(struct StringBuilder *self) { (void)self; return g_builder_valid; }
@@ -76,20 +103,28 @@ _Bool StringBuilder__isValid(struct StringBuilder *self) { (void)self; return g_
  * InvalidInput => the offending (non-NUL) byte is latched.  [unicode/hex4_valid, hex4_classify] */
 unsigned int JsonDeserializer_StubReader__parseHex4(JD *self, unsigned short *result) {
   CHECK(SAFE(self), "parseHex4 precondition: SAFE");
+  CHECK(!self->latch_.loaded_ && g_have_last && g_last == 'u', "parseHex4 is called right behind a consumed backslash-u");
   unsigned which = in_u8() % 3;
   *result = in_u16();
-  g_reads += 1 + in_u8() % 4;
+  unsigned k = 1 + in_u8() % 4;
+  g_reads += k; g_hex_reads += k;
   g_have_last = 1;
-  if (which == 0) { self->latch_.loaded_ = 0; g_last = '0'; g_ended = 0; return Ok; }
+  if (which == 0) { self->latch_.loaded_ = 0; g_last = '0'; g_ended = 0; g_u_n++; return Ok; }
   self->latch_.loaded_ = 1;
   if (which == 1) { self->latch_.current_ = 0; g_last = 0; g_ended = 1; return IncompleteInput; }
   char c = in_char();
   __CPROVER_assume(c != 0);
   self->latch_.current_ = c; g_last = (unsigned char)c; g_ended = 0;
+  g_hex_invalid = 1;
   return InvalidInput;
 }
 /* encodeCodepoint: appends 1..4 bytes to the builder, touches nothing else.  [unicode/utf8_encode] */
-void Utf8__encodeCodepoint_StringBuilder(unsigned int cp, struct StringBuilder *b) { (void)cp; (void)b; g_app_n += 1 + in_u8() % 4; }
+void Utf8__encodeCodepoint_StringBuilder(unsigned int cp, struct StringBuilder *b) {
+  (void)cp; (void)b;
+  unsigned k = 1 + in_u8() % 4;
+  if (g_fail_at - g_app_n < k) g_builder_valid = 0; /* the failing append lies among these */
+  g_app_n += k; g_cp_app += k;
+}
 /* unescapeChar: the RFC 8259 table plus the single quote, 0 for anything else.  [unicode/escape_tables] */
 static char spec_unescape(char c) {
   switch (c) {
@@ -100,9 +135,8 @@ static char spec_unescape(char c) {
 }
 char EscapeSequence__unescapeChar(char c) {
   char r = spec_unescape(c);
-#ifdef CFG_nouni
-  if (r) g_esc_n++;
-#endif
+  if (r) { g_esc_n++; g_unesc_pending = 1; g_unesc_ret = r; }
+  else g_unesc_zero = 1;
   return r;
 }
 
@@ -132,12 +166,12 @@ static JD *mk_state(unsigned char allowed_class) {
   g_last = (int)(unsigned char)d->latch_.current_;
   g_bad_consumed = 0;
   g_allowed_class = allowed_class;
-  g_builder_valid = in_bool();
-  g_app_n = 0;
+  g_builder_valid = in_bool(); /* invalid from the start: startString()'s allocation failed */
+  g_fail_at = in_u16();        /* ... or the append that fails (none if the string is shorter) */
+  g_app_n = 0; g_app_last = 0;
   g_sq_on = 0;
-#ifdef CFG_nouni
-  g_esc_n = 0; g_u_kept = 0; g_jd = d;
-#endif
+  g_jd = d; g_esc_n = 0; g_u_kept = 0; g_unesc_pending = 0; g_unesc_ret = 0; g_unesc_zero = 0; g_hex_invalid = 0;
+  g_u_n = 0; g_hex_reads = 0; g_cp_app = 0; g_app_hi = 0; g_app_ctl = 0;
   return d;
 }
 static void settle(JD *d) { /* judge the consumption of the last delivered byte */
@@ -274,14 +308,33 @@ void h_parseQuoted(void) {
   JD *d = mk_state(0);
   __CPROVER_assume(d->latch_.loaded_ && (d->latch_.current_ == '"' || d->latch_.current_ == '\''));
   char q = d->latch_.current_;
+  _Bool valid0 = g_builder_valid;
+#ifdef BOUND_READS
+  for (unsigned i = 0; i < 8; i++) g_log[i] = 0;
+#endif
   unsigned err = JsonDeserializer_StubReader__parseQuotedString(d);
   COVER(err == Ok); COVER(err == IncompleteInput); COVER(err == InvalidInput); COVER(err == NoMemory); COVER(err == Ok && g_app_n > 0);
+  COVER(err == NoMemory && !valid0 && g_reads == 1 && g_app_n == 0);   /* the empty string with a builder that is invalid from the start */
+  COVER(err == NoMemory && valid0);                                    /* an append failed */
+  COVER(err == Ok && g_app_hi);                                        /* a byte >= 0x80 was appended */
+  COVER(err == Ok && g_app_ctl);                                       /* the control byte 0x1F was appended */
+  COVER(err == InvalidInput && g_unesc_zero);
+#ifdef BOUND_READS /* bounded sibling (loops unwound): the same goals with the bytes spelled out */
+  COVER(err == Ok && g_reads == 3 && g_app_n == 2 && g_log[0] == 0xC3 && g_log[1] == 0xA9 && g_app_hi);
+  COVER(err == Ok && g_reads == 2 && g_app_n == 1 && g_log[0] == 0x1f && g_app_ctl);
+  COVER(err == Ok && g_reads == 3 && g_app_n == 1 && g_log[0] == '\\' && g_log[1] == 'n' && g_app_last == '\n');
+#endif
   CHECK(err == Ok || err == IncompleteInput || err == InvalidInput || err == NoMemory, "parseQuotedString return codes");
   CHECK(err != Ok || SAFE(d), "C03: Ok => SAFE");
   CHECK(err != Ok || (!LATCHED(d) && g_last == (unsigned char)q), "C16/C10: Ok => the closing quote is the last byte consumed");
   CHECK(err != IncompleteInput || g_ended, "IncompleteInput only at the end of the input");
-  CHECK(err != Ok || g_builder_valid, "Ok only if the builder is still valid");
-  CHECK(err != NoMemory || !g_builder_valid, "NoMemory iff the builder became invalid");
+  /* C05: the builder may be invalid from the start (startString failed) or become invalid at any append */
+  CHECK(err != Ok || g_builder_valid, "C05: Ok only if the builder is valid at the end (an invalid builder gives NoMemory whatever the string, the empty string included)");
+  CHECK(err != NoMemory || !g_builder_valid, "C05/C10: NoMemory only if the builder is invalid");
+  /* C10: every byte other than the closing quote, the backslash and NUL is a legal string byte */
+  CHECK(err != InvalidInput || g_hex_invalid || g_unesc_zero, "C10/C01: InvalidInput only from the hex digits of \\u or from a byte behind a backslash that is no escape -- never for a plain byte (0x01-0x1F, 0x80-0xFF are legal)");
+  CHECK(!(g_hex_invalid || g_unesc_zero) || err == InvalidInput, "C10: a wrong escape is InvalidInput");
+  CHECK(!g_unesc_pending, "C01: the translation of an escape is appended");
 #ifdef CFG_nouni
   /* ARDUINOJSON_DECODE_UNICODE=0: \uXXXX is not decoded; the documented behaviour is that the escape is left as it is.
    * Byte accounting over strings of every length (loop invariant of jsonscan_nouni.loops.json): between the quotes every
@@ -295,8 +348,14 @@ void h_parseQuoted(void) {
   CHECK((err != Ok && err != NoMemory) || g_app_n + g_esc_n + 1 == g_reads, "DECODE_UNICODE=0: every byte between the quotes is appended once (a two-character escape gives one byte, \\u is kept verbatim)");
 #endif
 #else
+  /* byte accounting over strings of every length (loop invariant): of the bytes the routine fetched itself, each is appended
+   * exactly once, except that a two-character escape gives one byte and backslash-u gives the bytes of encodeCodepoint;
+   * the closing quote is not appended.  Nothing is dropped, nothing is doubled. */
+  COVER(err == Ok && g_u_n > 0 && g_esc_n > 0);
 #ifdef CANARY_PARSEQUOTED
-  CHECK(!(err == Ok && g_app_n == 1), "canary: deliberately false for a reachable case");
+  CHECK(err != Ok || PQ_OWN_READS == PQ_OWN_APPENDS + g_esc_n + 2u * g_u_n + 1u + (g_app_n == 1), "C01: every plain byte between the quotes is appended exactly once (a two-character escape gives one byte, backslash-u the bytes of encodeCodepoint)");
+#else
+  CHECK(err != Ok || PQ_OWN_READS == PQ_OWN_APPENDS + g_esc_n + 2u * g_u_n + 1u, "C01: every plain byte between the quotes is appended exactly once (a two-character escape gives one byte, backslash-u the bytes of encodeCodepoint)");
 #endif
 #endif
 }
@@ -369,6 +428,7 @@ void h_parseNonQuoted(void) {
   JD *d = mk_state(3);
   _Bool first_ok = d->latch_.loaded_ && IS_IDENT(d->latch_.current_) && d->latch_.current_ > 0;
   __CPROVER_assume(d->latch_.loaded_); /* parseKey looked at the first byte */
+  _Bool valid0 = g_builder_valid;
   unsigned err = JsonDeserializer_StubReader__parseNonQuotedString(d);
   settle(d);
   COVER(err == Ok); COVER(err == InvalidInput); COVER(err == NoMemory);
@@ -377,7 +437,9 @@ void h_parseNonQuoted(void) {
   CHECK(!g_bad_consumed, "only identifier bytes are consumed");
   CHECK((err == InvalidInput) == !first_ok, "C10: an empty unquoted key is InvalidInput, otherwise not");
   CHECK(err == InvalidInput || g_app_n == g_reads, "C01: every consumed byte is appended to the key (one append per byte)");
-  CHECK(err != Ok || g_builder_valid, "Ok only with a valid builder");
+  COVER(err == NoMemory && !valid0); COVER(err == NoMemory && valid0);
+  CHECK(err != Ok || g_builder_valid, "C05: Ok only if the builder is valid at the end (it may be invalid from the start or fail at any append)");
+  CHECK(err != NoMemory || !g_builder_valid, "C05/C10: NoMemory only if the builder is invalid");
 #ifdef CANARY_PARSENONQUOTED
   CHECK(!(err == Ok && g_app_n == 2), "canary: deliberately false for a reachable case");
 #endif
